@@ -62,7 +62,7 @@ PROPS = {
                 "against a reference association list that is compared after every operation. Non-trivial = the run updated a key "
                 "that was displaced from its home slot, rehashed up and down, and had a probe sequence wrap around slot 0; "
                 "distinct = distinct event-trace hashes.",
-        "stages": _cont(2, 6000, 1_200_000),
+        "stages": _cont(2, 6000, 600_000, 10),
         "rare_probes": ["table.update_displaced", "table.rehash_up", "table.rehash_down", "table.probe_wrapped", "table.resize0", "map.absent_get", "map.absent_rem"],
         "assumptions": ["sequential consistency inside one thread", "reference model semantics as in DESIGN.md appendix A",
                         "self-assignment, mutation during iteration and in-place key mutation are outside the workload"],
@@ -74,7 +74,7 @@ PROPS = {
                 "exact-reverse backward iteration and red-black validity (root black, no red-red, equal black height, parent links, "
                 "node count, height <= 2*log2(n+1)) through the read-only accessor hook. Non-trivial = the run exercised at least 3 "
                 "distinct removal-repair situations (classified from the tree shape just before each rem); distinct = distinct trace hashes.",
-        "stages": _cont(3, 6000, 1_200_000),
+        "stages": _cont(3, 6000, 600_000, 10),
         "rare_probes": ["tree.rem_root", "tree.rem_two_children", "tree.fix_red_sibling", "tree.fix_black_sib_red_parent",
                         "tree.fix_black_sib_black_parent", "tree.fix_far_nephew_red", "tree.fix_near_nephew_red", "tree.rem_black_one_child"],
         "assumptions": COMMON_ASSUME,
@@ -86,7 +86,7 @@ PROPS = {
                 "indices; after every operation len, get(i), get(i-len), iteration and mem against a reference C array; after sort "
                 "sortedness + multiset equality. Non-trivial = the run crossed >= 2 Array growths and >= 1 shrink of the backing store "
                 "and used negative indices on >= 3 operation kinds; distinct = distinct trace hashes.",
-        "stages": _cont(4, 6000, 1_200_000),
+        "stages": _cont(4, 6000, 600_000, 10),
         "rare_probes": ["seq.array_grow", "seq.array_shrink", "seq.neg_get", "seq.neg_set", "seq.neg_pop_at", "seq.neg_push_at",
                         "seq.sort_with_duplicates", "seq.rem_duplicate", "seq.concat_cross", "seq.resize_pad", "seq.resize_reserve"],
         "assumptions": COMMON_ASSUME + ["push_at with a negative index is checked weakly (inserted once, others keep order)",
@@ -99,7 +99,7 @@ PROPS = {
                 "every operation, live tokens == sum of lengths, no double / unknown finalisation, copies and assignments deep, zero live "
                 "tokens after everything was deleted. Non-trivial = Tok run with >= 2 of {rehash, Tree two-children removal, sort, "
                 "cross-kind assign, copy}; distinct = distinct trace hashes.",
-        "stages": _cont(5, 6000, 1_200_000),
+        "stages": _cont(5, 6000, 600_000, 10),
         "rare_probes": ["table.rehash_up", "table.rehash_down", "tree.rem_two_children", "seq.sort", "assign.cross_kind", "copy", "c10.swaps"],
         "assumptions": COMMON_ASSUME + ["List.resize(n > len) is not applied to Tok lists (it creates never-constructed elements)"],
     },
@@ -110,7 +110,7 @@ PROPS = {
                 "must be eq in both directions and hash equally; swap must exchange the two model values. Non-trivial = >= 2 pairs "
                 "compared in the run; distinct = distinct trace hashes. The pure value-level clause (hash_data vs MurmurHash, scalar "
                 "corner values alone) is not claimed here.",
-        "stages": _cont(10, 6000, 1_200_000),
+        "stages": _cont(10, 6000, 600_000, 10),
         "rare_probes": ["c10.pairs", "c10.twins", "c10.swaps", "copy", "assign", "assign.cross_kind"],
         "assumptions": COMMON_ASSUME,
     },
@@ -122,7 +122,7 @@ PROPS = {
                 "canonical dump (len, every element by get and by iteration) and the element ledger must be unchanged, and the model "
                 "must keep agreeing over the valid operations that follow. Non-trivial = >= 5 distinct invalid-call kinds injected in "
                 "the run at states of size >= 2; distinct = distinct trace hashes.",
-        "stages": _cont(12, 6000, 1_000_000),
+        "stages": _cont(12, 6000, 600_000, 10),
         "rare_probes": ["bad.injected", "bad.get-out-of-range", "bad.push_at-out-of-range", "bad.pop-empty", "bad.rem-absent",
                         "bad.set-wrong-key-type", "bad.set-wrong-value-type", "bad.get-null-key", "bad.resize-below-len",
                         "bad.resize-tree-nonzero", "bad.resize-tuple-grow", "bad.unimplemented-class"],
@@ -135,7 +135,7 @@ PROPS = {
                 "operation c_str/len/cmp/eq/hash/mem against a libc-maintained reference buffer and the NUL must lie inside the block "
                 "(arena ledger; ASan red zones). Non-trivial = >= 1 rem in the middle and >= 1 grow after a shrink; distinct = distinct "
                 "trace hashes.",
-        "stages": _cont(16, 8000, 1_200_000),
+        "stages": _cont(16, 8000, 700_000, 10),
         "rare_probes": ["str.rem_middle", "str.rem_absent", "str.grow_after_shrink", "str.shrink", "str.reserve", "str.print_to"],
         "assumptions": COMMON_ASSUME,
     },
@@ -147,7 +147,7 @@ PROPS = {
                 "placed by the plan, under seeded allocator placement (incl. adversarial, all registry slots colliding). After every operation "
                 "every object the shadow graph reaches must be un-finalised, its block live, its canary intact. Non-trivial = at least one "
                 "collection proven (a garbage object was released) while an object was reachable only through a non-stack path; distinct = distinct trace hashes.",
-        "stages": _heap(1, 4000, 600_000),
+        "stages": _heap(1, 4000, 120_000, 10),
         "rare_probes": ["heap.tls_set", "heap.new_root", "heap.link_mapkey", "heap.link_mapval", "heap.link_seq", "heap.copy", "heap.max_chain", "heap.container_clear"],
         "assumptions": ["never asserts that something unreachable was collected", "no interior pointers, no pointers in unscanned malloc memory, no cross-thread reachability",
                         "objects allocated while the collector is stopped and raw objects keep nothing alive"],
@@ -161,7 +161,7 @@ PROPS = {
                 "block released without its destructor, nothing managed left behind. Non-trivial = a collection proven while a non-stack path "
                 "existed (as C01) - the run also counts sweep-time deletions of pending objects and stop/start windows in rare_probes; "
                 "distinct = distinct trace hashes.",
-        "stages": _heap(6, 4000, 600_000),
+        "stages": _heap(6, 4000, 120_000, 10),
         "rare_probes": ["heap.new_box", "heap.new_box_chain", "heap.del_box", "heap.del_root", "heap.del_raw", "heap.stop", "heap.new_while_stopped",
                         "heap.del_while_stopped", "heap.del_unregistered", "heap.freed_at_teardown"],
         "assumptions": ["roots the plan did not del_root and raw objects it did not del_raw are expected to survive", "deleting an object that a live Box still owns is outside the workload",
@@ -174,7 +174,7 @@ PROPS = {
                 "after every operation mem(current(GC), p) is compared with the ledger for every object ever seen (live and dead), and through the "
                 "read-only accessor hook: each registered object once, root flag as allocated, count matches, no mark left set. Non-trivial = a "
                 "collection proven while a non-stack path existed; distinct = distinct trace hashes.",
-        "stages": _heap(17, 4000, 600_000),
+        "stages": _heap(17, 4000, 200_000, 10),
         "rare_probes": ["reg.grow", "reg.shrink", "reg.probe_wrapped", "heap.del", "heap.del_root", "heap.del_box"],
         "assumptions": ["an object deleted while the collector is stopped may stay registered until a later collection"],
     },
@@ -186,7 +186,7 @@ PROPS = {
                 "resize, concat, assign, push, pop, pop_at) and must raise ResourceError or ValueError and leave the object intact; the arena "
                 "ledger reports any free of a non-heap pointer and any double free. Non-trivial = >= 2 wrong deallocations injected in the run; "
                 "distinct = distinct trace hashes.",
-        "stages": lambda tier: _cont(19, 3000, 500_000)(tier) + _heap(19, 3000, 500_000)(tier),
+        "stages": lambda tier: _cont(19, 3000, 300_000, 10)(tier) + _heap(19, 3000, 80_000, 10)(tier),
         "rare_probes": ["bad.dealloc-embedded", "bad.dealloc-stack-int", "bad.del_raw-stack-string", "bad.dealloc-static-type",
                         "bad.destruct-stack-tuple", "bad.pop_at-stack-tuple", "bad.resize-stack-string"],
         "assumptions": ["default (checked) build only"],
@@ -246,8 +246,8 @@ PROPS = {
                 "Non-trivial = >= 2 context switches at library-internal yield points and >= 2 threads doing allocation-heavy work; "
                 "distinct = distinct trace hashes (the trace records every context switch).",
         "stages": lambda tier: [
-            {"scen": "threads", "env": {}, "runs": 3000 if tier == "quick" else 500_000, "configs": ["plain"], "timeout": 20, "chunk": 20},
-            {"scen": "threads", "env": {}, "runs": 500 if tier == "quick" else 60_000, "configs": ["asan"], "first": 10_000_000, "timeout": 30, "chunk": 10},
+            {"scen": "threads", "env": {}, "runs": 3000 if tier == "quick" else 250_000, "configs": ["plain"], "timeout": 20, "chunk": 20},
+            {"scen": "threads", "env": {}, "runs": 500 if tier == "quick" else 30_000, "configs": ["asan"], "first": 10_000_000, "timeout": 30, "chunk": 10},
             {"scen": "exc", "env": {"threads": 3}, "runs": 1500 if tier == "quick" else 300_000, "configs": ["plain"], "first": 20_000_000, "timeout": 6},
         ],
         "rare_probes": ["thr.join_before_finish", "thr.join_after_finish", "thr.trylock_spins", "thr.alloc_threads", "sched.lib_switches", "sched.switches", "exc.thread_programs"],
@@ -267,8 +267,8 @@ PROPS = {
                 "member may be invoked. 39 built-in types take part in every plan. Non-trivial = >= 1 context switch inside a cache fill / memo / "
                 "lazy-header window and a type with > 18 instances; distinct = distinct trace hashes.",
         "stages": lambda tier: [
-            {"scen": "dispatch", "env": {}, "runs": 2500 if tier == "quick" else 400_000, "configs": ["plain"], "timeout": 20, "chunk": 20},
-            {"scen": "dispatch", "env": {}, "runs": 400 if tier == "quick" else 40_000, "configs": ["asan"], "first": 10_000_000, "timeout": 40, "chunk": 10},
+            {"scen": "dispatch", "env": {}, "runs": 2500 if tier == "quick" else 50_000, "configs": ["plain"], "timeout": 20, "chunk": 20},
+            {"scen": "dispatch", "env": {}, "runs": 400 if tier == "quick" else 6_000, "configs": ["asan"], "first": 10_000_000, "timeout": 40, "chunk": 10},
         ],
         "rare_probes": ["sched.sw_in_cache_fill", "sched.sw_in_class_memo", "sched.sw_in_lazy_header", "disp.concurrent_sweeps", "disp.empty_member",
                         "disp.missing_class", "disp.cooled", "disp.casts", "disp.max_instances", "disp.max_threads"],
@@ -288,10 +288,10 @@ PROPS = {
         "rule": "one evaluation = one plan executed under one configuration; non-trivial = the plan created >= 2 containers/strings (containers "
                 "stage) or contains an inner handled exception / throw from a handler (exceptions stage); distinct = distinct trace hashes.",
         "stages": lambda tier: (
-            [{"scen": "containers", "env": {"focus": 18, "avoid_kf": AVOID_KF}, "runs": 2500 if tier == "quick" else 120_000, "configs": [c],
+            [{"scen": "containers", "env": {"focus": 18, "avoid_kf": AVOID_KF}, "runs": 2500 if tier == "quick" else 40_000, "configs": [c],
               "differential": True} for c in (["plain", "ndebug-o2", "nocache-o2", "ngc-o2", "o3"] if tier == "quick" else
               ["plain", "o0", "o2", "o3", "ndebug-o0", "ndebug-o2", "ndebug-o3", "nocache-o0", "nocache-o2", "nocache-o3", "ngc-o0", "ngc-o2", "ngc-o3"])] +
-            [{"scen": "exc", "env": {"threads": 0, "nolib": 1}, "runs": 2500 if tier == "quick" else 120_000, "configs": [c], "first": 30_000_000, "timeout": 6,
+            [{"scen": "exc", "env": {"threads": 0, "nolib": 1}, "runs": 2500 if tier == "quick" else 40_000, "configs": [c], "first": 30_000_000, "timeout": 6,
               "differential": True, "diff_keys": ["verdict", "hash"]} for c in (["plain", "ndebug-o2", "nocache-o2", "ngc-o2", "o3"] if tier == "quick" else
               ["plain", "o0", "o2", "o3", "ndebug-o0", "ndebug-o2", "ndebug-o3", "nocache-o0", "nocache-o2", "nocache-o3", "ngc-o0", "ngc-o2", "ngc-o3"])]),
         "rare_probes": ["new.seq", "new.table", "new.tree", "new.string", "seq.sort", "copy", "assign", "str.print_to", "exc.outer_completes_after_inner_handled"],
